@@ -29,6 +29,11 @@ CLAIMED = {
         "level": "Links extracted from returned tracks compared with the oracle relation (overlap: link implies overlap, no-overlap implies new track, one-to-one relation followed exactly; distance: cut-off respected, no end/start pair within the cut-off, greedy matching when distances are distinct; motion histories keep identities across periodic boundaries).",
         "note": "Cases violating the no-within-frame-overlap premise or with unidentifiable entries are skipped and counted (C06 judges those).",
     },
+    "C08": {
+        "technique": _T + "; write/read round trip through real HDF5 files, byte-level comparison",
+        "level": "Generated collections of all four kinds and all five droplet classes, dims 1-3, None/0/positive widths, extreme finite values, empty collections/members, 0-13 members, int/float/negative times, one sixth heterogeneous; lengths, classes, record bytes, times and library equality compared after from_file.",
+        "note": "h5py trusted; files live in a per-process scratch directory removed at exit; writing that raises is accepted only for heterogeneous collections.",
+    },
     "C10": {
         "technique": _T + "; exhaustive sequences on a 1-D lattice with exact arithmetic; post-condition/invariant oracle",
         "level": "Generated emulsions (0-8 droplets, ties, radius 0, positions outside the box) x min_distance of either sign x grids with every periodicity mask; all ordered sequences of <=3 (thorough 4) lattice droplets exhaustively; from_random on bounds and every grid family.",
